@@ -184,14 +184,22 @@ def w_probe(case, opts):
     res = []
     calls = []
 
+    cur = {"san": None, "bad_args": []}
+
     def hostfn(*args):
         calls.append(len(args))
+        for a in args:          # a host function is called with JavaScript values only
+            why = cur["san"].classify(a) if cur["san"] is not None else None
+            if why and len(cur["bad_args"]) < 5:
+                cur["bad_args"].append(["host-function-argument:" + why, "hostfn", len(args)])
         return 7
     totals = {"checked": 0, "native_closures": 0}
     for src in case["progs"]:
         ctx = E.new_context()
         ctx.set("hostfn", hostfn)
         san = Sanitizer(E, ctx, [hostfn])
+        cur["san"] = san
+        cur["bad_args"] = san.bad      # same list: reported together
         n0 = len(calls)
         r = E.run_js(src, {"_vm_mons": [san.mon], "max_steps": 200000, "log": case.get("log", False)}, ctx=ctx)
         totals["checked"] += san.checked
@@ -282,6 +290,30 @@ def caught_error_programs():
     return out
 
 
+def native_value_programs():
+    """Every value a native hands to script code or to a host function: callback arguments of every callback-taking built-in,
+    elements of result arrays (non-participating capture groups, missing elements), accessor/setter arguments, call/apply
+    argument lists.  Each program logs them (the log encoder marks anything that is not a JavaScript value)."""
+    pre = "function all() { var a = []; for (var i = 0; i < arguments.length; i++) { a.push(arguments[i]); } log(a, this === undefined ? 'U' : typeof this); return 'r'; }\n"
+    rx = ["/(x)?b/", "/(x)?(b)|(c)/", "/(?:(a)|(b))+/", "/(?=(z))?b/", "/(a)|b/g", "/(x)*b/g", "/((x))?b/y"]
+    progs = []
+    for r in rx:
+        for subj in ("'ab'", "'abab'", "'b'"):
+            progs.append("%s.replace(%s, all); %s.replace(%s, hostfn); log(%s.split(%s)); log(%s.exec(%s)); log(%s.match(%s)); log(%s.search(%s)); %s" % (
+                subj, r, subj, r, subj, r, r, subj, subj, r, subj, r, "log(%s.replaceAll(%s, all));" % (subj, r) if "g" in r.split("/")[-1] else ""))
+    for m in ("forEach", "map", "filter", "some", "every", "find", "findIndex"):
+        progs.append("[1, undefined, null].%s(all); [1, 2].%s(hostfn); [1].%s(all, null); [1].%s(all, undefined);" % (m, m, m, m))
+    progs += ["[1, 2, 3].reduce(all); [1, 2].reduce(all, undefined); [1, 2].reduceRight(hostfn, null); [3, 1, 2].sort(all); [2, 1].sort(hostfn);",
+              "all.call(undefined, undefined, null); all.apply(null, [undefined, null, 1]); all.apply(undefined); all.bind(null, undefined)(null); hostfn.call(null, undefined); hostfn.apply(null, [null, undefined]);",
+              "var o = {set p(v) { log(['set', v]); }, get q() { log(['get', arguments.length]); return undefined; }}; o.p = undefined; o.p = null; o.q; log(Object.getOwnPropertyDescriptor(o, 'zz'), Object.getOwnPropertyDescriptor({d: undefined}, 'd'));",
+              "log('abc'.charAt(9), 'abc'[9], [][0], ({}).x, [1][5], 'a'.codePointAt, Math.max(), parseInt('x'), Number(undefined), [].pop(), [].shift(), new Int8Array(1)[5], (function () {})(), void 0);",
+              "log(JSON.parse('[null, {\"a\": null}]'), Object.entries({a: undefined, b: null}), Object.values({a: undefined}), [undefined, null].concat([undefined]), [undefined].slice(), Array(2), new Array(2).fill ? 1 : 0);",
+              "log([1, 2].indexOf(5), [].find(all), [].findIndex(all), 'x'.match(/y/), /y/.exec('x'), 'abc'.replace('b', all), 'abc'.replace('b', hostfn), ({valueOf: all}) + 1, String({toString: all}));",
+              "try { null.x; } catch (e) { log(e.lineNumber === undefined, e.stack === undefined, typeof e.message); } log((function () { return arguments[3]; })(1), (function (a, b) { return b; })(1));",
+              "var it = []; for (var k in {a: undefined, b: null}) { it.push(k); } for (var v of [undefined, null, , 1].slice(0, 2)) { it.push(v); } log(it);".replace("[undefined, null, , 1]", "[undefined, null, 1]")]
+    return ["// native-values\n" + pre + p for p in progs]
+
+
 def gen_invocation_prog(rng):
     """Program whose explicit hostfn call sites each pass a unique site id after bumping a script counter."""
     n = rng.randint(1, 6)
@@ -355,7 +387,7 @@ def main(ctx):
         # random programs + closure-heavy programs with the sanitizer on
         progs = [progen.random_program(rng) for _ in range(300 if ctx.quick else 6000)] + \
                 [progen.closure_heavy(rng) for _ in range(100 if ctx.quick else 2000)]
-        progs += caught_error_programs()
+        progs += caught_error_programs() + native_value_programs()
         rres = ep.map({"mod": "checks.C03", "fn": "w_probe"}, [{"progs": progs[i:i + 50], "log": True} for i in range(0, len(progs), 50)],
                       batch=1, timeout=600)
         # invocation log programs
